@@ -101,7 +101,7 @@ func (g *Gen) arithAtom() string {
 		return g.pick([]string{"${#s}", "${#arr[@]}", "$#", "${arr[1]}", "${n:-4}", "${#}", "$1"})
 	case 7:
 		g.feat("arith-quoted")
-		return g.pick([]string{`"2"`, `'3'`, `"$a"`, `"${b}"`})
+		return g.pick([]string{`"2"`, `"3"`, `"$a"`, `"${b}"`})
 	}
 	return fmt.Sprint(1 + g.R.IntN(5))
 }
